@@ -577,7 +577,14 @@ def monitorOp (mu : Mon) (prev : Args) (toks : List String) (implOk : Bool) (out
        | none => []) ++
       (changedAl.filterMap fun k =>
         if implOk && wasAdmin then none
-        else if implOk && kind == "execute" && snd == k then none
+        else if implOk && kind == "execute" && snd == k then
+          -- a subkey's own relay may only use up a record the admins created: it neither creates one nor raises an amount
+          match AMap.get? pRaw k, AMap.get? cRaw k with
+          | none, some _ => some (mk "C17" "C17/allowance-created-by-subkey" s!"allowance record of {k} created by its own Execute")
+          | some o, some n =>
+            if (denomsOf [o.balance, n.balance]).all fun d => decide (NativeBalance.total n.balance d ≤ NativeBalance.total o.balance d)
+            then none else some (mk "C17" "C17/allowance-raised-by-subkey" s!"allowance of {k} raised by its own Execute")
+          | _, none => none
         else some (mk "C17" "C17/grant-by-non-admin" s!"allowance of {k} changed by {kind} from {snd}")) ++
       (changedPerm.filterMap fun k =>
         if implOk && wasAdmin then none
